@@ -53,6 +53,12 @@ CHECKS["C02"] = dict(level="model_checking", engine="E1-histories",
    note="Trusted: R-row is a literal transcription of the README rule and of the property text (status = latest INSERT/DELETE, DELETE sticky until a later INSERT, per-column greatest write time since that INSERT). Ties in write time excluded.",
    ref="§5 C02")
 
+CHECKS["C05"] = dict(level="model_checking", engine="E1-sequences",
+   technique="exhaustive enumeration of all statement sequences (depth 4/5) over a transaction alphabet incl. an injected failing commit, on one SQLite connection holding the s3db table and a native mirror; oracles on own view, fresh reader, request log and tree dumps",
+   text="Every sequence of length 1..4 (quick) / 1..5 (thorough) over {BEGIN, COMMIT, ROLLBACK, INSERT (new, duplicate, NULL key), UPDATE (point, range), DELETE, arm-a-failing-version-PUT} is run for entries_per_node 2/4096 and write_time unset / explicitly set per statement. After the last step: the connection's rows equal the native mirror's (own writes visible, restored by explicit rollback, failing statement or failing commit); a fresh read-only opener sees exactly the last committed rows (none or all of a transaction); no version object is written before COMMIT or by a rolled-back transaction, exactly one per changing commit and none otherwise; the tree after any rollback equals the pre-transaction tree dump field by field; with write_time unset everything a transaction wrote carries one time (the logical clock advances on every read, so per-statement clock reads would show).",
+   note="Trusted: SQLite's own transaction handling of the native mirror; injected commit failure = version PUT fails before taking effect. Failing multi-row statements inside explicit transactions are out of scope (needs xSavepoint; property is silent).",
+   ref="§5 C05")
+
 NOT_YET = {}
 
 props = [json.loads(l) for l in open("properties.jsonl")]
